@@ -25,7 +25,9 @@ REAL_VS_STUB = {
     "stub": ["EL::AnaAlgorithm / StatusCode / ANA_CHECK / evtStore / TTree / xAOD containers; edm::EDAnalyzer / Event / Handle / "
              "InputTag / consumes / Service<TFileService> (sim/job/standin/simfw.h)",
              "driver that plays schedules: job instances, event order, duplicate deliveries, failing retrievals (sim/job/standin/driver.cc)",
-             "event content: a pure function of (batch seed, event id, container type, bank) computed inside the driver"],
+             "event content: a pure function of (batch seed, event id, container type, bank) computed inside the driver",
+             "event store memory model, per run: products of finished events are poisoned and kept alive for two events, or (3 runs in 10) "
+             "objects are recycled in place so that addresses repeat from event to event"],
 }
 
 PROPERTIES = {
@@ -520,6 +522,9 @@ def _execute_inner(case):
     work = tempfile.mkdtemp(prefix="c-", dir=_scratch)
     res = {"log": [], "violations": [], "stats": {}, "states": [], "nontrivial": []}
     res["stats"]["reach:collection_sizes_" + size_profile(case["event_seed"])] = 1
+    # the stand-in store's memory model of this run (the same choice simfw.h makes from the event seed)
+    recycle = _mix(case["event_seed"] ^ 0xadd7e55) % 10 < 3
+    res["stats"]["reach:store_" + ("recycles_objects_in_place" if recycle else "poisons_and_retains_finished_events")] = 1
     try:
         exe, status, err = translate_and_build(case, work)
         res["stats"][status] = 1
